@@ -367,6 +367,61 @@ pub fn repetition_programs() -> Vec<String> {
     out
 }
 
+/// the repetition corpus and the size sweep together (one phase in C01, C03-C07)
+pub fn repetition_corpus() -> &'static [String] {
+    static CORPUS: std::sync::OnceLock<Vec<String>> = std::sync::OnceLock::new();
+    CORPUS.get_or_init(|| {
+        let mut v = repetition_programs();
+        v.extend(size_sweep_programs());
+        v
+    })
+}
+
+/// sizes around the thresholds code likes to special-case: small counts, powers of two and their neighbours, round numbers
+pub const SIZE_SWEEP: &[usize] = &[8, 9, 10, 11, 12, 13, 15, 16, 17, 20, 31, 32, 33, 50, 63, 64, 65, 100, 127, 128, 129, 200, 255, 256, 257, 300, 1000];
+
+/// "the same construct at every size": lists of n items (space and comma), lists of n associations with a look-up in
+/// the middle and at both ends, sums of n terms, n statements, texts / byte lists / symbol names of n characters,
+/// conditional chains of n arms, n nested groups, a loop of n iterations. Used beside `repetition_programs`.
+pub fn size_sweep_programs() -> Vec<String> {
+    let mut out = vec![];
+    for &n in SIZE_SWEEP {
+        let nums: Vec<String> = (1..=n).map(|i| (i % 97).to_string()).collect();
+        out.push(nums.join(" "));
+        out.push(nums.join(", "));
+        out.push(format!("( {} ) .|", nums.join(" ")));
+        out.push(format!("( {} ) . {}", nums.join(", "), n - 1));
+        out.push(format!("( {} ) . {}", nums.join(" "), n));
+        let assoc: Vec<String> = (1..=n).map(|i| format!(":k{} = {}", i, i)).collect();
+        for key in [1, n / 2, n] {
+            out.push(format!("( {} ) . k{}", assoc.join(", "), key));
+        }
+        out.push(format!("( {} ) ~> {{ k{} + k1 }}", assoc.join(" "), n));
+        out.push(format!("\"{}\"", "a".repeat(n)));
+        out.push(format!("\"{}\" .|", "é".repeat(n)));
+        out.push(format!("'{}'", "b".repeat(n)));
+        out.push(format!(":{} == :{}", "s".repeat(n), "s".repeat(n)));
+        out.push(format!("\"{}\" == \"{}\"", "a".repeat(n), "a".repeat(n)));
+        out.push(format!("( {} ) == ( {} )", nums.join(" "), nums.join(" ")));
+        if n <= 300 {
+            out.push(vec!["1"; n].join(" + "));
+            out.push((1..=n).map(|i| format!("$ + {}", i % 7)).collect::<Vec<_>>().join(" ; "));
+            out.push((1..=n).map(|i| format!("{}", i % 7)).collect::<Vec<_>>().join("\n\n"));
+            // a chain of n arms, the last one taken
+            let arms: Vec<String> = (1..=n).map(|i| format!("$ == {} ?> {}", i, i + 1000)).collect();
+            out.push(format!("{{ {} |> 7 }} <~ {}", arms.join(" |> "), n));
+            out.push(format!("{{ {} |> 7 }} <~ {}", arms.join(" |> "), n + 1));
+            // a counting loop of n iterations
+            out.push(format!("{{ $ == {} ?> $ |> ^~ $ + 1 }} <~ 0", n));
+        }
+        if n <= 64 {
+            out.push(format!("{}5{}", "( ".repeat(n), " )".repeat(n)));
+            out.push(format!("{}5{}", "{ ".repeat(n), " } ~~".repeat(n)));
+        }
+    }
+    out
+}
+
 pub fn simple_for_build() -> garnish_lang_simple_data::SimpleGarnishData {
     new_simple()
 }
